@@ -56,7 +56,7 @@ def main():
             suite = t.stdout.strip().splitlines()[-1] if t.stdout.strip() else 'error'
             res = []
             for prop in props:
-                e = dict(os.environ, VERIF_REPO=d, VERIF_SEED=a.seed, VERIF_REPLAY_DIR=os.path.join(d, '_replays'),
+                e = dict(os.environ, VERIF_REPO=d, VERIF_SEED=a.seed, VERIF_ROUNDS='1', VERIF_SHRINK_S='10', VERIF_REPLAY_DIR=os.path.join(d, '_replays'),
                          VERIF_EVIDENCE_DIR=os.path.join(d, '_evidence'))
                 e.pop('VERIF_PINNED', None)
                 c = subprocess.run(['/venv/bin/python', os.path.join(VERIF, 'run.py'), 'check', prop, '--tier', a.tier],
